@@ -192,6 +192,11 @@ def c02(cases, res):
                 fsyms = lst(full.get("syms", ""))
                 if len(fsyms) > len(syms):
                     autos += 1
+                    # the conversion that is pushed out is the alternative (Tab) the user was looking at
+                    if full.get("nth") is not None and prev.snap.get("nth") is not None and full["nth"] != prev.snap["nth"] \
+                            and not (is_key(s) and key_code(s) == KC["Tab"]):
+                        out.append(fail("auto-commit-of-another-alternative", case, i,
+                                        "alternative %s was displayed, alternative %s was committed" % (prev.snap["nth"], full["nth"])))
                     ok = False
                     acc = []
                     removed = 0
